@@ -166,6 +166,8 @@ type c18Mat struct {
 	users    *state.TypedCollection[SUser]
 	orders   *state.TypedCollection[SOrder]
 	named    *state.TypedCollection[SNamed]
+	tags     *state.TypedCollection[[]string]       // unnamed Go types as entities
+	counts   *state.TypedCollection[map[string]int] // (their entity type names are "[]string" and "map[string]int")
 	resets   int
 	snaps    []bool
 	onErrors int
@@ -187,7 +189,11 @@ func newC18Mat(strict bool) *c18Mat {
 	c.named = state.NewTypedCollection[SNamed](state.NewMemoryStore[SNamed]())
 	state.RegisterCollection(c.m, c.users)
 	state.RegisterCollection(c.m, c.orders)
+	c.tags = state.NewTypedCollection[[]string](state.NewMemoryStore[[]string]())
+	c.counts = state.NewTypedCollection[map[string]int](state.NewMemoryStore[map[string]int]())
 	state.RegisterCollection(c.m, c.named)
+	state.RegisterCollection(c.m, c.tags)
+	state.RegisterCollection(c.m, c.counts)
 	return c
 }
 
@@ -202,6 +208,12 @@ func (c *c18Mat) snapshot() []string {
 	}
 	for k, v := range c.named.All() {
 		out = append(out, "named|"+k+"="+string(mustJSON(v)))
+	}
+	for k, v := range c.tags.All() {
+		out = append(out, "tags|"+k+"="+string(mustJSON(v)))
+	}
+	for k, v := range c.counts.All() {
+		out = append(out, "counts|"+k+"="+string(mustJSON(v)))
 	}
 	sort.Strings(out)
 	return out
